@@ -1,4 +1,5 @@
 import MindsVerif.Lemmas.TS
+import MindsVerif.Gen.TSCfg
 /-!
 # C15 — a time-series model receives exactly its context window plus selected rows
 
@@ -302,8 +303,8 @@ theorem C15_reject_where_partial (cfg : Cfg) (m : Meta) (q : Query α) (w : W α
     | true => rw [validO_le cfg m.nG w hv] at hvf; exact absurd hvf (by simp)
   exact ((C15_decision cfg m q).1).2 (Or.inr (Or.inr (Or.inr (Or.inr (Or.inl this)))))
 
-/-- **with fixes/C15_3.diff** (`cfg.deepValidate`): the same for *every* WHERE, no `visible` restriction —
-this closes KF-C15-3 -/
+/-- **with the validation of 6ba8cb8** (`cfg.deepValidate`): the same for *every* WHERE, no `visible`
+restriction (closed KF-C15-3) -/
 theorem C15_reject_where_fixed (cfg : Cfg) (hcfg : cfg.deepValidate = true) (m : Meta) (q : Query α) (w : W α)
     (hq : q.whereC = some w) (hop : w.isOperation = true)
     (hbad : opsOk w = false ∨ colsOk m.nG w = false ∨ andOk w = false) : planTS cfg m q = .planning := by
@@ -339,9 +340,9 @@ theorem C15_no_crash (cfg : Cfg) (m : Meta) (q : Query α)
     rw [hq] at hft hv
     exact findTF_no_crash m.nG w (h w hq) (validO_le cfg m.nG w hv) hft
 
-/-! ## order column on the right — what fixes/C15_4.diff buys (closes KF-C15-5 when it lands) -/
+/-! ## order column on the right (commit a0ed2b6, `cfg.normalizeTF`; closed KF-C15-5) -/
 
-/-- **with fixes/C15_4.diff** (`cfg.normalizeTF`): a WHERE whose time condition is written `c op t` is planned
+/-- **with the normalisation of a0ed2b6** (`cfg.normalizeTF`): a WHERE whose time condition is written `c op t` is planned
 exactly like the WHERE with that leaf rewritten to `t op' c`; the rewritten WHERE is in the domain of
 `C15_rows` (class `rc.mirror`) and selects the same rows as the user's WHERE. Hence the fetched rows are the
 rows of the user's condition plus the window before its lower bound. -/
@@ -369,6 +370,28 @@ theorem C15_rows_rev_fixed (cfg : Cfg) (hcfg : cfg.normalizeTF = true) (m : Meta
   have h2 := planTS_eq_some cfg m { q with whereC := some w' } ho hg hh hf hv' rc.mirror.toW hft'
   rw [normStep_tc] at h2
   rw [h1, h2]
+
+/-! ## the pinned tree has both repairs: unconditional instances, and the tie to the live code -/
+
+/-- the variant probed on the live code by `tools/extract/x_c15.py` is the one the theorems are instantiated with -/
+theorem C15_live_variant : MindsVerif.Gen.TSCfg.live = Cfg.pinned := by decide
+
+/-- **T15.3 on the pinned tree**: every WHERE with a disallowed operator, a column other than the order / group
+columns anywhere outside sub-queries, or an AND operand that is not a condition ⇒ PlanningException -/
+theorem C15_reject_where (m : Meta) (q : Query α) (w : W α) (hq : q.whereC = some w)
+    (hop : w.isOperation = true)
+    (hbad : opsOk w = false ∨ colsOk m.nG w = false ∨ andOk w = false) : planTS Cfg.pinned m q = .planning :=
+  C15_reject_where_fixed Cfg.pinned rfl m q w hq hop hbad
+
+/-- **T15.1 on the pinned tree for `c op t`**: planned as `t op' c`, which is in `Dom`, has the row-set property
+and selects the same rows -/
+theorem C15_rows_rev (m : Meta) (q : Query α) (rc : RC α) (w : W α) (hq : q.whereC = some w) (hp : plain q)
+    (hd : tcTree m.nG rc.toW w = true) :
+    let w' := replaceTF rc.toW rc.mirror.toW w
+    planTS Cfg.pinned m q = planTS Cfg.pinned m { q with whereC := some w' } ∧
+    RowsSpec Cfg.pinned m { q with whereC := some w' } (some rc.mirror) ∧
+    ∀ e r, sel e w' r = sel e w r :=
+  C15_rows_rev_fixed Cfg.pinned rfl m q rc w hq hp hd
 
 /-! ## NULL partition values: what the executor has to provide -/
 
@@ -433,17 +456,16 @@ theorem C15_witness_1 :
 example : ∃ pl, planTS (α := Int) Cfg.pinned ⟨1, 3⟩ { whereC := some (TC.gt 5).toW, limit := some 0 } = .ok pl ∧
     pl.limitStep = some 0 := ⟨_, rfl, rfl⟩
 
-/-- KF-C15-3: a foreign column inside a non-Operation node (`ta.g IN (ta.x, 1)`, CAST, CASE) is not rejected -/
-theorem C15_witness_3 :
-    colsOk (α := Int) 1 (.bin .inn (.ident (.grp 0)) (.opaque true)) = false ∧
-    planTS (α := Int) Cfg.pinned ⟨1, 3⟩ { whereC := some (.bin .inn (.ident (.grp 0)) (.opaque true)) } ≠ .planning := by
+/-- KF-C15-3 (fixed by 6ba8cb8): a foreign column inside an IN list / CAST / CASE is rejected -/
+example :
+    planTS (α := Int) Cfg.pinned ⟨1, 3⟩ { whereC := some (.bin .inn (.ident (.grp 0)) (.opaque true)) } = .planning := by
   decide
 
-/-- KF-C15-3 (second shape): a foreign column / disallowed operator in an Operation that is the third BETWEEN
-operand (`ta.g BETWEEN 1 AND (ta.x + 1)`) is not rejected -/
-theorem C15_witness_4 :
-    let w : W Int := W.btw (.ident (.grp 0)) (.const 1) (.bin (.bad 0) (.ident .other) (.const 1))
-    opsOk w = false ∧ colsOk 1 w = false ∧ planTS Cfg.pinned ⟨1, 3⟩ { whereC := some w } ≠ .planning := by decide
+/-- KF-C15-3, second shape (fixed by 6ba8cb8): `ta.g BETWEEN 1 AND (ta.x + 1)` is rejected -/
+example :
+    planTS (α := Int) Cfg.pinned ⟨1, 3⟩
+      { whereC := some (.btw (.ident (.grp 0)) (.const 1) (.bin (.bad 0) (.ident .other) (.const 1))) } = .planning := by
+  decide
 
 /-- KF-C15-4 (fixed by 8068254): `WHERE ta.g = 1 AND ta.g` is rejected with PlanningException -/
 example :
@@ -451,12 +473,11 @@ example :
       { whereC := some (.bin .and (.bin .eq (.ident (.grp 0)) (.const 1)) (.ident (.grp 0))) }
       = .planning := by decide
 
-/-- KF-C15-5 (outside `Dom`): order column on the right, `5 < ta.t` — no window select is produced although
-the condition has the lower bound 5 -/
-theorem C15_witness_6 :
-    ∃ pl, planTS (α := Int) Cfg.pinned ⟨0, 3⟩ { whereC := some (.bin .lt (.const 5) (.ident .time)) } = .ok pl ∧
-      pl.selects.length = 1 ∧ ∀ s ∈ pl.selects, s.limit = none := by
-  refine ⟨_, rfl, by decide⟩
+/-- KF-C15-5 (fixed by a0ed2b6): `5 < ta.t` is planned like `ta.t > 5` — window select + range select,
+output filter `t > 5` -/
+example :
+    planTS (α := Int) Cfg.pinned ⟨0, 3⟩ { whereC := some (.bin .lt (.const 5) (.ident .time)) }
+      = planTS (α := Int) Cfg.pinned ⟨0, 3⟩ { whereC := some (TC.gt 5).toW } := by decide
 
 /-- NULL partition value under plain SQL equality: the table has a row of the NULL partition that satisfies
 the user's condition (so the specification set is not empty), but nothing is fetched. Not a defect of this
